@@ -42,9 +42,56 @@ func (m *OCI) Clone() *OCI {
 	return c
 }
 
+// dc maps a node to the representative of its digest: an OCI layout stores one file
+// per digest, so aliases (same bytes under two media types) live and die together.
+func (m *OCI) dc(id int) int { return m.D.Nodes[m.D.Nodes[id].Canon].DCanon }
+
+// Has reports whether the content of node id is stored.
+func (m *OCI) Has(id int) bool { return m.Stored[m.dc(id)] }
+
+// StoredTriples returns the stored set keyed by triple-canonical ids (what
+// descriptor-keyed oracles such as CheckPreds expect).
+func (m *OCI) StoredTriples() map[int]bool {
+	out := map[int]bool{}
+	for _, id := range m.D.CanonIDs() {
+		if m.Has(id) {
+			out[id] = true
+		}
+	}
+	return out
+}
+
+// edges returns the successors of id at digest level.
+func (m *OCI) edges(id int) []gen.Edge {
+	var out []gen.Edge
+	for _, e := range m.D.Nodes[id].Edges {
+		e.To = m.dc(e.To)
+		out = append(out, e)
+	}
+	return out
+}
+
+// parentsD is Parents() at digest level.
+func (m *OCI) parentsD() map[int][]int {
+	out := map[int][]int{}
+	for _, p := range m.D.CanonIDs() {
+		if m.dc(p) != p {
+			continue
+		}
+		seen := map[int]bool{}
+		for _, e := range m.edges(p) {
+			if !seen[e.To] {
+				seen[e.To] = true
+				out[e.To] = append(out[e.To], p)
+			}
+		}
+	}
+	return out
+}
+
 // Push records a successful push.
 func (m *OCI) Push(id int) {
-	id = m.D.Nodes[id].Canon
+	id = m.dc(id)
 	m.Stored[id] = true
 	if m.D.IsManifest(id) {
 		m.Entry[id] = true
@@ -53,7 +100,7 @@ func (m *OCI) Push(id int) {
 
 // Tag records a successful tag.
 func (m *OCI) Tag(id int, ref string) {
-	id = m.D.Nodes[id].Canon
+	id = m.dc(id)
 	m.Tags[ref] = id
 	m.Entry[id] = true
 }
@@ -92,10 +139,10 @@ func (m *OCI) remove(id int) {
 }
 
 // DeletePlain models Delete without automatic GC.
-func (m *OCI) DeletePlain(id int) { m.remove(m.D.Nodes[id].Canon) }
+func (m *OCI) DeletePlain(id int) { m.remove(m.dc(id)) }
 
 func (m *OCI) subjectOf(id int) (int, bool) {
-	for _, e := range m.D.Nodes[id].Edges {
+	for _, e := range m.edges(id) {
 		if e.Role == "subject" {
 			return e.To, true
 		}
@@ -122,7 +169,7 @@ func (m *OCI) storedPreds(parents map[int][]int, id int) []int {
 //	            still links to it (the two halves of the statement disagree there);
 //	blobSubj:   the referrer rule also fires when the removed subject is a blob.
 func (m *OCI) cascade(x int, strictRef, blobSubj bool) map[int]bool {
-	parents := m.D.Parents()
+	parents := m.parentsD()
 	removed := map[int]bool{x: true}
 	hadPred := map[int]bool{}
 	for id := range m.Stored {
@@ -181,7 +228,7 @@ func sameSet(a, b map[int]bool) bool {
 // DeleteAutoGC models Delete with automatic GC. It returns false, leaving the model
 // untouched, when the statement does not fix the outcome (its readings disagree).
 func (m *OCI) DeleteAutoGC(id int) (judged bool) {
-	id = m.D.Nodes[id].Canon
+	id = m.dc(id)
 	a := m.cascade(id, true, false)
 	if !sameSet(a, m.cascade(id, false, false)) || !sameSet(a, m.cascade(id, true, true)) || !sameSet(a, m.cascade(id, false, true)) {
 		return false
@@ -195,7 +242,7 @@ func (m *OCI) DeleteAutoGC(id int) (judged bool) {
 // CascadeSize reports how many nodes Delete(id) with auto-GC removes (for
 // classification), without changing the model.
 func (m *OCI) CascadeSize(id int) int {
-	return len(m.cascade(m.D.Nodes[id].Canon, true, false))
+	return len(m.cascade(m.dc(id), true, false))
 }
 
 // closure adds to live everything reachable from id through stored nodes.
@@ -204,7 +251,7 @@ func (m *OCI) closure(id int, live map[int]bool) {
 		return
 	}
 	live[id] = true
-	for _, e := range m.D.Nodes[id].Edges {
+	for _, e := range m.edges(id) {
 		m.closure(e.To, live)
 	}
 }
@@ -215,7 +262,7 @@ func (m *OCI) closure(id int, live map[int]bool) {
 func (m *OCI) gcLive() (live map[int]bool, keptRef map[int]bool, unjudged bool) {
 	live = map[int]bool{}
 	keptRef = map[int]bool{}
-	parents := m.D.Parents()
+	parents := m.parentsD()
 	for _, id := range m.Tags {
 		m.closure(id, live)
 	}
